@@ -88,3 +88,24 @@ func vc_C09_no_nondeterminism_sources() {
 
 // determinism across runs also needs renderer objects without state surviving a render
 func vc_C09_renderer_reuse() { vc_C07_renderer_reuse() }
+
+// History independence of the hierarchical renderers: the mesh of model B does
+// not depend on what was rendered before it. B is rendered after A (a different
+// field with the identical bounding box and cell count) and again after C (a
+// model with a different bounding box); both meshes of B must be identical.
+func vc_C09_octree_history() {
+	box := sdf.Box3{Min: v3.Vec{}, Max: v3.Vec{X: 4, Y: 4, Z: 4}}
+	other := sdf.Box3{Min: v3.Vec{X: 1, Y: 1, Z: 1}, Max: v3.Vec{X: 7, Y: 4, Z: 3}}
+	fa := &vfFieldA{vfHashField{bb: box}}
+	fb := &vfFieldB{vfHashField{bb: box}}
+	fc := &vfFieldA{vfHashField{bb: other}}
+	n := [2]int{4, 6}[vfCase("cells", 2)]
+	ToTriangles(fa, NewMarchingCubesOctree(n))
+	afterA := ToTriangles(fb, NewMarchingCubesOctree(n))
+	ToTriangles(fc, NewMarchingCubesOctree(n))
+	afterC := ToTriangles(fb, NewMarchingCubesOctree(n))
+	vfReach("octree history")
+	vfAssert(len(afterC) > 0, "the test field produces triangles")
+	vfSameTriangles(afterA, afterC, "the octree mesh of a model is the same whatever was rendered before it (same or different bounding box)")
+}
+func vc_C07_octree_history() { vc_C09_octree_history() }
